@@ -147,9 +147,23 @@ def run_job(spec):
     res = dict(harness=spec["harness"], skel=spec["skel"], paths=0, decisions=0, queries=0, proof_queries=0,
                discharged=0, obligations=0, witnesses_ok=0, witness_mismatch=[], inconclusive=[], violations=[],
                known_hits=[], solver_s=0.0, functions=[], samples=[], wall_s=0.0, realisations=0, exc_paths=0)
+    import signal
+    import resource
     try:
         mod = importlib.import_module(spec["module"])
         H = {h.name: h for h in mod.HARNESSES}[spec["harness"]]
+        from symnp.core import BudgetExceeded
+
+        def on_alarm(signum, frame):
+            raise BudgetExceeded(f"job wall time budget ({H.job_timeout_s}s)")
+        signal.signal(signal.SIGALRM, on_alarm)
+        signal.setitimer(signal.ITIMER_REAL, H.job_timeout_s + 5)
+        try:
+            soft, hard = resource.getrlimit(resource.RLIMIT_AS)
+            lim = 6 << 30
+            resource.setrlimit(resource.RLIMIT_AS, (lim if hard == resource.RLIM_INFINITY else min(lim, hard), hard))
+        except Exception:
+            pass
         symnp.install()
         ENGINE.__init__()
         ENGINE.deadline = t_start + H.job_timeout_s
@@ -290,5 +304,7 @@ def run_job(spec):
         res["functions"] = sorted(f"{a}:{b} {c}" for a, b, c in funcs)
     except BaseException as e:
         res["inconclusive"].append("job crashed: " + "".join(traceback.format_exception(e))[-1500:])
+    finally:
+        signal.setitimer(signal.ITIMER_REAL, 0)
     res["wall_s"] = time.time() - t_start
     return res
